@@ -324,6 +324,22 @@ pub fn char_families(level: u32, seed: u64) -> Vec<Family> {
             }
         }
     }
+    // alphabets beyond 512 / 1024 characters (block lengths 1024 and 2048)
+    {
+        let al = chars_from(0x1000, 1000);
+        let mut p: Vec<Vec<u8>> = al.iter().map(|c| c.to_string().into_bytes()).collect();
+        for &a in &[al[0], al[511], al[512], al[999]] {
+            for &b in al.iter().step_by(7) {
+                let mut s = String::new();
+                s.push(a);
+                s.push(b);
+                p.push(s.into_bytes());
+            }
+        }
+        v.push(fam("chars1000_fanout+4x143", p));
+        let al = chars_from(0x2000, 1030);
+        v.push(fam("chars1030_single", al.iter().map(|c| c.to_string().into_bytes()).collect()));
+    }
     if level >= 1 {
         v.push(fam("chars2_len<=9", strings_over(&['\u{0}', '\u{10ffff}'], 9)));
         v.push(fam("chars3_len<=7", strings_over(&['x', 'y', '\u{7ff}'], 7)));
